@@ -882,6 +882,8 @@ impl Check for C10 {
         let mut runs: Vec<(String, crate::compile::CompileOut)> = vec![];
         let plan: Vec<(&str, Option<&[String]>, u64, bool)> = vec![
             ("same process, twice", None, 2, false),
+            // the parsed modules of the first extraction serve the second one (what a watch session does)
+            ("same parsed modules, extracted twice", None, 2, false),
             ("fresh process, eager order 1", Some(&case.preloads[0]), 1, true),
             ("fresh process, eager order 2", Some(&case.preloads[1]), 1, true),
             ("fresh process, lazy", None, 1, true),
@@ -890,7 +892,8 @@ impl Check for C10 {
             if fresh {
                 ctx.compiler.restart();
             }
-            match ctx.compiler.compile_many(&case.project, preload, repeat, t) {
+            let r = if label.starts_with("same parsed modules") { ctx.compiler.compile_shared(&case.project, repeat, t) } else { ctx.compiler.compile_many(&case.project, preload, repeat, t) };
+            match r {
                 Ok(outs) => {
                     for o in outs {
                         runs.push((label.to_string(), o));
